@@ -226,7 +226,19 @@ def k_glue(src: Path, parse) -> str:
     radd = ["if np.isscalar(other) and other == 0:\n    return self", "return self.__add__(other)"]
     radd_ok = all([ast.unparse(x) for x in _strip_doc(find_function(tpc, q).body)] == radd
                   for q in ("NormalisedCounts.__radd__", "PatchedCounts.__radd__"))
+    trd = parse(src, "yaw/catalog/readers.py")
+    gnc = find_function(trd, "FitsReader._get_next_chunk")
+    inner = [n for n in gnc.body if isinstance(n, ast.FunctionDef) and n.name == "get_data_swapped"]
+    fits_ok = (len(inner) == 1 and ast.unparse(inner[0].body[-1]) == "return array.view(array.dtype.newbyteorder()).byteswap()"
+               and ast.unparse(inner[0].body[-2]) == "array = self._hdu_data[colname][start:end]"
+               and [ast.unparse(x) for x in gnc.body[1:]] == [
+                   "kwargs = {attr: get_data_swapped(col) for attr, col in self._columns.items()}",
+                   "_, chunk = DataChunk.create(**kwargs, degrees=self.degrees)", "return chunk"])
     return "\n".join([
+        "/-- FITS columns reach the chunk through a VALUE-PRESERVING change of byte order: the dtype's byte-order label and the bytes are "
+        "flipped together (`view(newbyteorder()).byteswap()`), whatever order astropy delivered (big-endian raw columns, native "
+        "arrays for unsigned / scaled columns); every configured column goes through it under its own attribute name -/",
+        f"def fitsByteorderValuePreserving : Bool := {'true' if fits_ok else 'false'}",
         "/-- `_num_processes()`: the value of YAW_NUM_THREADS (if set) capped by the number of physical cores -/",
         "def numProcesses (envThreads : Option Int) (cores : Int) : Int :=",
         "  match envThreads with | some t => min t cores | none => cores",
